@@ -675,6 +675,8 @@ def step_release(e, tier="quick", usage=False, acting=None, others=None):
     eff.append(Implies(And(ok, z3.Not(Or(*[is_t(b) for b in w.bundles]))),
                        all_unchanged_except(w, pre, post, lambda t, i: False)))
     A["C07.effect"] = And(*eff)
+    # C03 relies on it: only a nameplate that was really retired makes room for a new incarnation
+    A["C03.release_retires"] = A["C07.effect"]
     usage_asserts(A, x, pre, post, when, F, w.cfg["blur"])
     generic_frames(A, x, pre, post, released=lambda b, i: rel[(b.k, i)])
     A["C01.no_new_msg"] = len(nm["messages"]) == 0
@@ -940,3 +942,48 @@ def step_any(e, tier="quick", usage=False, types=None):
                                                store_unchanged(pre, post)))
     return finish(x, A, info=dict(type=ty, exc=type(ex).__name__ if ex else None),
                   kf=[("KF-D6", kf)], inv=False)
+
+
+
+# =============================================================================================
+# welcome (C17): the first frame of every connection carries the configured notices
+# =============================================================================================
+@obligation("step.welcome")
+def step_welcome(e, tier="quick"):
+    from sx.world import SymWorld
+    has = {k: [False, True][e.choose(2, k)] for k in ("motd", "current_cli_version", "error")}
+    val = {k: e.sym_str("cfg." + k) for k in has}
+    cfg = {k: val[k] for k in has if has[k]}
+    w = SymWorld(e, welcome=cfg)
+    w.phase = "step"
+    c = w.new_conn("c0")
+    fr = step_frames(c)
+    A = {}
+    ok = len(fr) == 1 and ftype(fr[0]) == "welcome" and isinstance(fr[0]["frame"].get("welcome"), dict)
+    A["C17.welcome_first"] = ok
+    if ok:
+        got = fr[0]["frame"]["welcome"]
+        parts = []
+        # motd: whenever configured (even empty); version / error: whenever configured non-empty
+        exp = {}
+        if has["motd"]:
+            exp["motd"] = (T, val["motd"])
+        for k in ("current_cli_version", "error"):
+            if has[k]:
+                exp[k] = (val[k].z != Z(""), val[k])
+        for k in set(got) | set(exp):
+            if k not in exp:
+                parts.append(F)
+                continue
+            cond, v = exp[k]
+            if k in got:
+                parts.append(And(cond, eqv(got[k], v)))
+            else:
+                parts.append(z3.Not(cond))
+        A["C17.welcome_content"] = And(*parts)
+        A["C17.wellformed"] = "server_tx" in fr[0]["frame"]
+    # a later message on the same connection is not preceded by another welcome
+    ex = w.deliver(c, w.msg("ping", ping=e.sym_int("p")))
+    A["C17.no_exception"] = ex is None
+    A["C17.one_welcome"] = [ftype(r) for r in step_frames(c)] == ["welcome", "ack", "pong"]
+    return PathResult(A, world=w, info=dict(has=has))
